@@ -206,7 +206,7 @@ def channels(effects, atom):
 
 
 # ---------------------------------------------------------------- spec big step
-GUARD_NAMES = {"appropriate_end_tag": "self.have_appropriate_end_tag()", "temp_is_script": '(self.temp_buf == "script")',
+GUARD_NAMES = {"appropriate_end_tag": "self.have_appropriate_end_tag()", "temp_is_script": 'self.temp_buf matches "script"',
                "adjusted_current_node_not_html": "self.sink.adjusted_current_node_present_but_not_in_html_namespace()"}
 
 
